@@ -283,13 +283,27 @@ def scan_assumptions(text):
     found = []
     lines = text.split("\n")
     for i, l in enumerate(lines):
-        if "external_body" in l or "assume_specification" in l or "external_type_specification" in l \
-                or "external_fn_specification" in l or "uninterp spec fn" in l:
-            # name = next line with fn/struct
+        if l.lstrip().startswith("//"):
+            continue
+        m = re.search(r"assume_specification\s*(?:<[^\[]*>)?\s*\[\s*(.+?)\s*\]\s*\(", l)
+        if m:
+            found.append("assume_specification " + re.sub(r"\s+", " ", m.group(1)))
+            continue
+        if "external_trait_specification" in l:
+            for k in range(i, min(i + 4, len(lines))):
+                t = re.search(r"\btrait\s+(\w+)", lines[k])
+                if t:
+                    found.append("external trait specification " + t.group(1))
+                    break
+            continue
+        if "external_body" in l or "external_type_specification" in l or "external_fn_specification" in l \
+                or "uninterp spec fn" in l:
+            # name = this or one of the next lines with fn/struct
             for k in range(i, min(i + 6, len(lines))):
                 m = re.search(r"\b(fn|struct|enum)\s+(\w+)", lines[k])
                 if m:
-                    found.append("%s %s" % (m.group(1), m.group(2)))
+                    kind = "uninterpreted spec fn" if "uninterp spec fn" in lines[k] else m.group(1)
+                    found.append("%s %s" % (kind, m.group(2)))
                     break
     return sorted(set(found))
 
